@@ -33,6 +33,7 @@ import vlib
 FUEL_LO, FUEL_HI = 100, 2500          # the model's nesting bound; Python's own limit lies strictly between
 CORPUS = os.path.join(vlib.VERIF, 'harness', 'corpus', 'C17')
 OWN_ID = bytes(range(1, 49))
+BIG_BLOB = bytes(range(101, 149))
 
 
 # ------------------------------------------------------------------------------------------------
@@ -79,8 +80,9 @@ class RefError(Exception):
     pass
 
 
-def ref_bdecode(data):
-    """strict bencode reader: canonical integers, no trailing bytes. iterative (no recursion limit)."""
+def ref_bdecode(data, ordered=True):
+    """strict bencode reader: canonical integers, no trailing bytes, (ordered=True) dictionary keys in strictly
+    increasing order. iterative (no recursion limit)."""
     pos = 0
     n = len(data)
     root = []
@@ -93,7 +95,7 @@ def ref_bdecode(data):
         elif key is _NOKEY:
             if not isinstance(val, (bytes, int)):
                 raise RefError('unhashable key')
-            if cont:
+            if cont and ordered:
                 prev = next(reversed(cont))
                 if type(prev) is not type(val) or not prev < val:
                     raise RefError('keys not in strictly increasing order')
@@ -350,6 +352,18 @@ class Node:
             self.known.append(p)
         self.proto.data_store.completed_blobs.add(constants.generate_id(300).hex())
         self.task_started = False
+
+    def fill(self, announcers):
+        """a busy node: 24 more contacts with the longest addresses / ports in the routing table and [announcers]
+        peers that have announced BIG_BLOB: the largest findValue / findNode replies the node can produce"""
+        async def alive(_peer):          # a full bucket that cannot be split pings its oldest contact: it answers
+            return None
+        for i in range(24):
+            p = make_kademlia_peer(constants.generate_id(i + 500), '203.100.%d.1%02d' % (100 + i, i), 60000 + i)
+            self.loop.run_until_complete(self.proto.routing_table.add_peer(p, alive))
+        for i in range(announcers):
+            p = make_kademlia_peer(constants.generate_id(i + 700), '222.222.222.2%02d' % i, 61000 + i, 65000 + i)
+            self.proto.data_store.add_peer_to_blob(p, BIG_BLOB)
 
     def flood(self, count):
         """a long-running node: [count] distinct endpoints have each sent one undecodable datagram"""
@@ -748,13 +762,13 @@ def _req(rpc, node, method, args):
     return raw_enc(((0, 0), (1, rpc), (2, node), (3, method), (4, list(args) + [((b'protocolVersion', 1),)])))
 
 
-BAD_PORTS = [_Raw(b'i0000e'), 0, -1, 65535, 65536, 70000, 2 ** 32, b'5001', b'', [5000], [], ((b'p', 1),), _Raw(b'i-0e'), _Raw(b'i 0 e')]
+BAD_PORTS = [_Raw(b'i0000e'), 0, -1, 1, 80, 1023, 65536, 70000, 2 ** 32, b'5001', b'', [5000], [], ((b'p', 1),), _Raw(b'i-0e'), _Raw(b'i 0 e')]
 
 
 def store_sequences(rng, count):
     """three-step sequences: (1) peer P announces a blob with a valid store (tcp port 5000); (2) the same identity
     (node id, ip, udp port) sends a store that is NOT valid -- every malformed tcp port (the one-byte mutation
-    i5000e -> i0000e, 0, negative, 65535 and above, bytes, list, dict, missing), a short hash, a hash that is a
+    i5000e -> i0000e, 0, negative, below 1024, 65536 and above, bytes, list, dict, missing), a short hash, a hash that is a
     list / dict of 48 elements with a valid port -- or an unrelated invalid request; (3) a third party asks findValue for the blob.
     yields (kind, prefix, datagram, sender, expect_peers)"""
     for n in range(count):
@@ -916,13 +930,15 @@ def violation_signature(data, obs, impl):
     return {'datagram': data.hex() if len(data) <= 400 else data[:400].hex() + '...', 'escaped': obs['escaped']}
 
 
-def check_datagram(ctx, data, sender, kind, expect=None, prefix=None, expect_peers=None, flood=0):
+def check_datagram(ctx, data, sender, kind, expect=None, prefix=None, expect_peers=None, flood=0, fill=None, expect_reply=None):
     """one datagram through the real handler, the real decode_datagram and the model; monitor + compare.
     prefix: earlier datagrams [(bytes, sender), ...] of the same sequence, delivered to a FRESH node first;
     expect_peers: (blob, [compact addresses]) the node must hand out in its findValue answer to this datagram;
-    flood: that many distinct endpoints have each sent junk to the fresh node before (a long-running node)"""
+    flood: that many distinct endpoints have each sent junk to the fresh node before (a long-running node);
+    fill: the fresh node first gets 24 more contacts and that many announcers of BIG_BLOB (largest replies);
+    expect_reply: {'contacts': n, 'peers': m} the findValue / findNode answer must carry"""
     run, model = ctx.run, ctx.model
-    if ctx.fed >= 400 or prefix or flood:
+    if ctx.fed >= 400 or prefix or flood or fill is not None:
         ctx.fresh_node()
     ctx.fed += 1
     if ctx.node is not getattr(ctx, 'history_node', None):
@@ -934,6 +950,12 @@ def check_datagram(ctx, data, sender, kind, expect=None, prefix=None, expect_pee
         case['flood'] = flood
         ctx.node.flood(flood)
         ctx.fed = 10 ** 9
+    if fill is not None:
+        case['fill'] = fill
+        ctx.node.fill(fill)
+        ctx.fed = 10 ** 9
+    if expect_reply:
+        case['expect_reply'] = expect_reply
     if prefix:
         case['prefix'] = [[d.hex(), list(a)] for d, a in prefix]
         for d, a in prefix:
@@ -943,7 +965,7 @@ def check_datagram(ctx, data, sender, kind, expect=None, prefix=None, expect_pee
         case['expect_peers'] = [expect_peers[0].hex(), [x.hex() for x in expect_peers[1]]]
     impl = impl_decode(data)
     obs = ctx.node.feed(data, tuple(sender))
-    if not prefix and not flood:
+    if not prefix and not flood and fill is None:
         ctx.history.append((data, tuple(sender)))
     mod = model.call('decode', fuel_lo=FUEL_LO, fuel_hi=FUEL_HI, data=data.hex(), own=OWN_ID.hex())
     grey = vlib.canon({k: v for k, v in mod['lo'].items() if k != 'request_valid'}) != vlib.canon({k: v for k, v in mod['hi'].items() if k not in ('effect', 'request_valid')})
@@ -997,6 +1019,43 @@ def check_datagram(ctx, data, sender, kind, expect=None, prefix=None, expect_pee
                        f"{obs['failures_after'].get(key)}, expected {want[key]}; replies {obs['replies']}")
             elif obs['replies'] != ['error']:
                 bad = f"a request that is not a valid protocol request was answered with {obs['replies'] or 'nothing'} instead of one error datagram"
+    if not bad and obs['sent'] and any(tuple(a) != tuple(sender) for _d, a in ctx.node.transport.sent[-obs['sent']:]):
+        bad = (f"the reply to a datagram from {sender[0]}:{sender[1]} was sent to "
+               f"{[a for _d, a in ctx.node.transport.sent[-obs['sent']:]]} (the node id it carries is that of a routing-table contact)")
+    if (not bad and 'msg' in impl and impl['msg']['cls'] == 'request' and not request_is_valid(impl['msg'])
+            and contact_address(impl['msg'], sender) is None):
+        key = f'{sender[0]}:{sender[1]}'
+        want = expected_failures(obs['failures_before'], key, obs['now'], obs['capacity'])
+        if obs['failures_after'] != want or obs['sent']:
+            bad = (f"a request that is not a valid protocol request, from an address that cannot be a contact ({key}), was not "
+                   f"dropped with the sender's failure recorded: failure record before {obs['failures_before'].get(key)}, after "
+                   f"{obs['failures_after'].get(key)}; replies {obs['replies']}")
+    if not bad and 'msg' in impl:
+        try:
+            ref_bdecode(data, ordered=False)
+        except RefError as e:
+            bad = (f"a datagram that is not valid bencode ({e}) was accepted as a {impl['msg']['cls']}"
+                   + (f" and answered with {obs['replies']}" if obs['replies'] else ''))
+    if (not bad and 'msg' in impl and impl['msg']['cls'] == 'request' and request_is_valid(impl['msg'])
+            and contact_address(impl['msg'], sender) is not None):
+        reply = None
+        if obs['replies'] == ['response']:
+            try:
+                reply = ref_bdecode(ctx.node.transport.sent[-1][0])
+            except Exception:  # noqa
+                reply = None
+        if reply is None or reply.get(1) != bytes.fromhex(impl['msg']['rpc_id']) or reply.get(2) != OWN_ID:
+            bad = (f"a valid {bytes.fromhex(impl['msg']['method'][1]).decode()} request was not answered with one response datagram "
+                   f"that an independent bencode reader can read (replies: {obs['replies']}, error text: "
+                   f"{[t[:90] if t else t for t in obs['reply_texts']]})")
+        elif expect_reply:
+            body = reply[3]
+            got = {'contacts': len(body.get(b'contacts', [])) if isinstance(body, dict) else len(body),
+                   'peers': len(body.get(BIG_BLOB, [])) if isinstance(body, dict) else 0}
+            if got != expect_reply:
+                bad = f'the reply carries {got}, expected {expect_reply} (datagram of {len(ctx.node.transport.sent[-1][0])} bytes)'
+            else:
+                run.count('largest replies: %d bytes' % (len(ctx.node.transport.sent[-1][0]) // 100 * 100))
     if not bad and expect_peers:
         told = None
         try:
@@ -1019,7 +1078,7 @@ def check_datagram(ctx, data, sender, kind, expect=None, prefix=None, expect_pee
     if not bad and expect == 'drop' and 'msg' in impl:
         bad = ('a truncated datagram' if kind == 'truncation' else 'corpus datagram that must be dropped') + ' was accepted as ' + impl['msg']['cls']
     if bad:
-        if not prefix and not flood and len(ctx.history) > 1 and sum(len(d) for d, _ in ctx.history) < 300000:
+        if not prefix and not flood and fill is None and len(ctx.history) > 1 and sum(len(d) for d, _ in ctx.history) < 300000:
             # the node's state matters: make the replay self-contained with everything this node received before
             case['prefix'] = [[d.hex(), list(a)] for d, a in ctx.history[:-1]]
         run.violation(case, bad, signature=violation_signature(data, obs, impl))
@@ -1039,9 +1098,8 @@ def check_datagram(ctx, data, sender, kind, expect=None, prefix=None, expect_pee
     #  that part of the handler is abstract in the model: compare the failure count only for drops)
     if 'msg' in impl and impl['msg']['cls'] == 'request':
         # handle_request_datagram: no contact -> ignored; valid -> exactly one response; otherwise exactly one error
-        # datagram and one failure.  The contact is the table entry with that node id, else the sender's address.
-        in_table = impl['msg']['node_id'] in KNOWN_IDS
-        usable = in_table or tuple(sender) in USABLE_SENDERS
+        # datagram and one failure.  The contact is the datagram's source address.
+        usable = tuple(sender) in USABLE_SENDERS
         want = [] if not usable else ['response'] if m['request_valid'] else ['error']
         run.count('request ' + ('ignored (no usable contact)' if not usable else 'served' if m['request_valid'] else 'answered with an error'))
         run.compare('C17.handle_request.reply', case, obs['replies'], want)
@@ -1067,7 +1125,7 @@ def check_datagram(ctx, data, sender, kind, expect=None, prefix=None, expect_pee
 def request_is_valid(msg):
     """the protocol's own rules for a request, applied to the fields decode_datagram returned (independent of
     protocol.py): a known method from another node, ping anything; store: five positional arguments, a 48-byte
-    blob hash, an integer tcp port 1..65534; findNode / findValue: a 48-byte key (findValue: an integer page)"""
+    blob hash, an integer tcp port 1024..65535; findNode / findValue: a 48-byte key (findValue: an integer page)"""
     if msg['cls'] != 'request' or msg['node_id'] == OWN_ID.hex() or msg['args'][0] != 'l' or msg['method'][0] != 'b':
         return False
     method = bytes.fromhex(msg['method'][1])
@@ -1079,7 +1137,7 @@ def request_is_valid(msg):
         return True
     if method == b'store':
         return (len(pos) >= 5 and isinstance(pos[0], bytes) and len(pos[0]) == 48
-                and isinstance(pos[2], int) and 0 < pos[2] < 65535)
+                and isinstance(pos[2], int) and 1024 <= pos[2] <= 65535)
     if method in (b'findNode', b'findValue'):
         if not (pos and isinstance(pos[0], bytes) and len(pos[0]) == 48):
             return False
@@ -1105,11 +1163,9 @@ def _show(x, n):
 
 
 def contact_address(msg, sender):
-    """the contact a request is attributed to: the routing-table entry with that node id, else the sender's
-    address if make_kademlia_peer accepts it (public IPv4, udp port >= 1024); None: the request is ignored"""
-    if msg['node_id'] in KNOWN_IDS:
-        i = sorted(KNOWN_IDS, key=lambda h: [constants.generate_id(j + 100).hex() for j in range(5)].index(h)).index(msg['node_id'])
-        return (f'9.9.{i}.9', 5000 + i)
+    """the contact a request is attributed to: the datagram's SOURCE address (also when the node id it carries is
+    that of a routing-table contact living elsewhere); None when that address cannot be a contact (make_kademlia_peer
+    refuses a non-public IPv4 address or a udp port below 1024): no reply is possible then"""
     return tuple(sender) if tuple(sender) in USABLE_SENDERS else None
 
 
@@ -1430,7 +1486,9 @@ def main(run):
         'one length prefix or integer token rewritten (sign, whitespace, underscore, zeros, negative, off by one, huge), '
         'unknown-method requests whose echoed error text has 2/3/4-byte UTF-8 characters at every alignment around byte 256 and '
         'character 256; 2..5 invalid datagrams from one sender followed by one more invalid request (sender already rated bad); '
-        'a long-running node whose failure table (LRU of lbry.dht.peer.CACHE_SIZE = 16384 records, read at run time) has been '
+        'a busy node (29 contacts with the longest addresses, 7 / 8 / 12 announcers of one blob) asked findValue page 0 / 1 and '
+        'findNode: the largest replies; every method with 0..7 positional arguments (cut off / extended), the store ones also '
+        'after a valid announcement of the same identity; a long-running node whose failure table (LRU of lbry.dht.peer.CACHE_SIZE = 16384 records, read at run time) has been '
         'filled by CACHE_SIZE-1 / CACHE_SIZE / CACHE_SIZE+10 distinct endpoints before junk and invalid requests of new and known '
         'senders arrive; random operation runs on the real LRUCache and the real report_failure with capacities 1..5; '
         'three-step sequences (valid store from P; then every malformed-port / invalid store or a mutation from the same '
@@ -1456,7 +1514,7 @@ def main(run):
         check_datagram(ctx, bytes.fromhex(c['datagram']), tuple(c.get('sender', SENDERS[0])), 'corpus', c.get('expect'),
                        prefix=[(bytes.fromhex(d), tuple(a)) for d, a in c.get('prefix', [])] or None,
                        expect_peers=(bytes.fromhex(ep[0]), [bytes.fromhex(x) for x in ep[1]]) if ep else None,
-                       flood=int(c.get('flood', 0)))
+                       flood=int(c.get('flood', 0)), fill=c.get('fill'), expect_reply=c.get('expect_reply'))
     for c in load_corpus('messages'):
         check_message(ctx, c['m'], message_from_desc(c['m']), kind='corpus')
     lap('corpus')
@@ -1507,6 +1565,29 @@ def main(run):
     for i in range(vlib.scaled(T, 60, 2000)):
         prefix, d, sender = gen_repeated_invalid(rng)
         check_datagram(ctx, d, sender, 'sequence:invalid after %d invalid' % len(prefix), prefix=prefix)
+    # -- a busy node: the largest replies (8 contacts with 15-character addresses and 5-digit ports, 8 peers, token) ----
+    q_id, q_addr = b'Q' * 48, ('5.6.7.9', 4446)
+    for ann in ((7, 8, 12) if T == 'quick' else (0, 1, 6, 7, 8, 9, 12, 17, 40)):
+        for page in (0, 1):
+            want = {'contacts': 8 if page == 0 else 0, 'peers': max(0, min(8, ann - 8 * page))}
+            check_datagram(ctx, _req(bytes([ann]) * 20, q_id, b'findValue', [BIG_BLOB, ((b'p', page), (b'protocolVersion', 1))][:1])
+                           if page == 0 else raw_enc(((0, 0), (1, bytes([ann]) * 20), (2, q_id), (3, b'findValue'),
+                                                      (4, [BIG_BLOB, ((b'p', page), (b'protocolVersion', 1))]))),
+                           q_addr, 'busy node: findValue, %d announcers, page %d' % (ann, page), fill=ann, expect_reply=want)
+        check_datagram(ctx, _req(bytes([ann]) * 20, q_id, b'findNode', [BIG_BLOB]), q_addr, 'busy node: findNode', fill=ann,
+                       expect_reply={'contacts': 8, 'peers': 0})
+    # -- arity: every method with 0..7 positional arguments (valid values, cut off or extended) --------------------------
+    full_args = {b'ping': [], b'store': [BIG_BLOB, b't' * 48, 5001, b'n' * 48, 0], b'findNode': [BIG_BLOB], b'findValue': [BIG_BLOB]}
+    for mth, fa in full_args.items():
+        for n in range(0, 8):
+            args = (fa + [0, b'x', 7, b'y', 1, 2, 3])[:n]
+            check_datagram(ctx, _req(bytes([n]) * 20, b'n' * 48, mth, args), ('5.6.7.8', 4445), 'arity: %s with %d arguments' % (mth.decode(), n))
+            if mth == b'store':
+                # after a valid announcement of the same identity: a cut-off store must not rewrite it
+                valid = _req(b'v' * 20, b'n' * 48, b'store', [BIG_BLOB, b't' * 48, 5000, b'n' * 48, 0])
+                check_datagram(ctx, _req(bytes([n]) * 20, b'n' * 48, mth, args), ('5.6.7.8', 4445),
+                               'arity: store with %d arguments after a valid store' % n, prefix=[(valid, ('5.6.7.8', 4445))])
+    lap('busy node + arity')
     # -- a long-running node: the failure table (an LRU of lbry.dht.peer.CACHE_SIZE records) is full -----------------
     import lbry.dht.peer as peer_module
     cap = peer_module.CACHE_SIZE
@@ -1635,7 +1716,7 @@ def replay(run, case):
         check_datagram(ctx, bytes.fromhex(case['datagram']), tuple(case['sender']), case.get('kind', 'replay'), case.get('expect'),
                        prefix=[(bytes.fromhex(d), tuple(a)) for d, a in case.get('prefix', [])] or None,
                        expect_peers=(bytes.fromhex(ep[0]), [bytes.fromhex(x) for x in ep[1]]) if ep else None,
-                       flood=int(case.get('flood', 0)))
+                       flood=int(case.get('flood', 0)), fill=case.get('fill'), expect_reply=case.get('expect_reply'))
     elif op == 'lru':
         check_lru(ctx, int(case['cap']), case['ops'])
     elif op == 'failure-table':
